@@ -920,7 +920,11 @@ def check_dispatch(h, f=None):
                 live = (first_end is None or t_item < first_end - EPS) and \
                     (dsc is None or sq_item < dsc['seq'])
                 if not hit:
-                    if live:
+                    n_same = sum(
+                        1 for (k2, _r, _t, _s, ex2, _o) in units
+                        for it2 in ex2
+                        if R.same_value(it2[0] if k2 == 'ws' else it2, val))
+                    if live and n_same == 1:
                         loose = [e for e in events
                                  if _loosely_equal(e['arg'], val)]
                         why = 'changed-payload' if loose else 'lost'
@@ -2176,3 +2180,222 @@ def _cfg_shape(cfg):
     if isinstance(cfg, dict):
         return 'callable'
     return 'list'
+
+
+# ===========================================================================
+# C14  inbound size and volume limits
+# ===========================================================================
+
+def check_limits(h, f=None):
+    f = f or Facts(h)
+    out = []
+    impl = f.impl
+    limit = h.world.server.max_http_buffer_size
+    pkt_limit = h.world.app_opts.get('max_decode_packets', 16)
+    ev_keys = {}
+    for e in h.app.events:
+        if e['ev'] == 'message':
+            ev_keys.setdefault(_key(e['arg']), []).append(e)
+
+    def payloads_of(body_bytes):
+        try:
+            parts = R.ref_payload_split(body_bytes.decode('utf-8'))
+        except (UnicodeDecodeError, R.RefError):
+            return []
+        vals = []
+        for p in parts:
+            try:
+                pt, d, cert = R.ref_decode(p)
+            except R.RefError:
+                continue
+            if pt == R.MESSAGE and cert == 'exact':
+                vals.append(d)
+        return vals
+
+    for sid, s in f.sess.items():
+        c = s['client']
+        if c is None or not s['accepted']:
+            continue
+        for req in c.posts + [r for r in c.raws if r.method == 'POST']:
+            if req.seq_arrive is None or ('sid=' + sid) not in req.query:
+                continue
+            declared = len(req.body) if req.declared is None \
+                else _int(req.declared)
+            if declared is None or declared < 0:
+                continue
+            st = (req.snap_arrive or {}).get(sid)
+            live = st is not None and not st['closed'] and not st['closing']
+            if impl == 'threaded':
+                total = sum(req.reads)
+                if total > min(declared, limit):
+                    out.append(V('read-bound', '%s|read-more-than-allowed' %
+                                 impl, 'POST %d declared %d bytes (limit '
+                                 '%d): the server read %d bytes (%r)' % (
+                                     req.rid, declared, limit, total,
+                                     req.read_calls)))
+                if any(n is None or n < 0 or n > min(declared, limit)
+                       for n in req.read_calls):
+                    out.append(V('read-bound', '%s|unbounded-read-call' %
+                                 impl, 'POST %d declared %d bytes (limit '
+                                 '%d): read() was called with %r' % (
+                                     req.rid, declared, limit,
+                                     req.read_calls)))
+            if declared > limit:
+                for v in payloads_of(req.body):
+                    if isinstance(v, str) and len(v) < 3:
+                        continue        # not attributable
+                    if _key(v) in ev_keys:
+                        out.append(V('oversize-not-delivered',
+                                     '%s|oversize-post-reached-app' % impl,
+                                     'POST %d declared %d > limit %d but '
+                                     'its payload %r reached the message '
+                                     'handler' % (req.rid, declared, limit,
+                                                  _short(v))))
+                        break
+                if not live:
+                    continue
+                if req.status is None:
+                    if req.t_arrive < f.end - 0.5:
+                        out.append(V('oversize-post-400',
+                                     '%s|oversize-post-never-answered' %
+                                     impl, 'POST %d declared %d > limit %d '
+                                     'was never answered' % (
+                                         req.rid, declared, limit)))
+                elif req.status != 400:
+                    out.append(V('oversize-post-400',
+                                 '%s|oversize-post-status-%s' % (
+                                     impl, req.status),
+                                 'POST %d declared %d > limit %d was '
+                                 'answered %s' % (req.rid, declared, limit,
+                                                  req.status)))
+                if req.status is not None and not s['disconnect'] and \
+                        req.t_arrive < f.end - 0.5:
+                    out.append(V('oversize-ends-session',
+                                 '%s|oversize-post-session-kept' % impl,
+                                 'POST %d declared %d > limit %d but the '
+                                 'session got no disconnect event' % (
+                                     req.rid, declared, limit)))
+            elif declared == limit and live and req.status is not None:
+                vals = payloads_of(req.body[:declared])
+                try:
+                    n_parts = len(R.ref_payload_split(
+                        req.body[:declared].decode('utf-8')))
+                except (UnicodeDecodeError, R.RefError):
+                    n_parts = 10 ** 9
+                whole = n_parts <= pkt_limit and not _refused_body(
+                    req, pkt_limit, limit)
+                try:
+                    R.ref_payload_decode(req.body[:declared].decode('utf-8'),
+                                         pkt_limit)
+                except (R.RefError, UnicodeDecodeError):
+                    whole = False
+                if whole and req.status != 200 and not f.causes(sid):
+                    out.append(V('exact-limit-accepted',
+                                 '%s|exact-limit-post-refused' % impl,
+                                 'POST %d of exactly the limit (%d bytes) '
+                                 'was answered %s' % (req.rid, limit,
+                                                      req.status)))
+        # frames
+        for conn in {id(x): x for x in (f.main_ws(sid),
+                                        f.server_upgraded_conn(sid))
+                     if x is not None}.values():
+            started = conn is c.open_ws
+            for (sq, t, d) in conn.recv_s:
+                if not started:
+                    if d == '5':
+                        started = True
+                    continue
+                if len(d) > limit:
+                    try:
+                        pt, v, cert = R.ref_decode(d)
+                    except R.RefError:
+                        continue
+                    if pt == R.MESSAGE and _key(v) in ev_keys:
+                        out.append(V('oversize-not-delivered',
+                                     '%s|oversize-frame-reached-app' % impl,
+                                     'a frame of %d > limit %d reached the '
+                                     'message handler' % (len(d), limit)))
+                    if not s['disconnect'] and t < f.end - 0.5:
+                        out.append(V('oversize-ends-session',
+                                     '%s|oversize-frame-session-kept' % impl,
+                                     'a frame of %d > limit %d at t=%.4f did '
+                                     'not end the session' % (len(d), limit,
+                                                              t)))
+                    break
+        for u in c.upgrades:
+            for (sq, t, d) in u['conn'].recv_s[:2]:
+                if len(d) > limit:
+                    try:
+                        pt, v, cert = R.ref_decode(d)
+                    except R.RefError:
+                        continue
+                    if pt == R.MESSAGE and _key(v) in ev_keys:
+                        out.append(V('oversize-not-delivered',
+                                     '%s|oversize-handshake-frame-reached-'
+                                     'app' % impl, 'an oversize frame sent '
+                                     'during the upgrade handshake reached '
+                                     'the message handler'))
+    return out
+
+
+# ===========================================================================
+# C19  response transformations
+# ===========================================================================
+
+def check_transformations(h, f=None):
+    f = f or Facts(h)
+    out = []
+    impl = f.impl
+    cfg = h.plan.get('config', {})
+    enabled = cfg.get('http_compression', True)
+    threshold = cfg.get('compression_threshold', 1024)
+    for c in h.clients:
+        for (kind, ref, msg) in c.decode_errors:
+            if kind != 'transform':
+                continue
+            req = h.world.requests[ref]
+            j = 'jsonp' if 'j=' in req.query else 'plain'
+            shape = msg.split(':')[0][:40]
+            out.append(V('lossless', '%s|undecodable-response|%s|%s' % (
+                impl, j, shape),
+                'client %d could not turn response %d (%s, headers %r) back '
+                'into a payload: %s; body starts %r' % (
+                    c.idx, ref, j, req.resp_headers, msg,
+                    (req.resp_body or b'')[:80])))
+    for req in h.world.requests:
+        if req.kind != 'http' or req.status is None:
+            continue
+        ce = [v for k, v in (req.resp_headers or [])
+              if k.lower() == 'content-encoding']
+        if not ce:
+            continue
+        coding = ce[0].strip().lower()
+        ae = ','.join(v for k, v in req.headers
+                      if k.lower() == 'accept-encoding')
+        offered = R.offered_encodings(ae)
+        if len(ce) > 1:
+            out.append(V('labelled', '%s|two-content-encodings' % impl,
+                         'response %d declares %r' % (req.rid, ce)))
+        if not enabled:
+            out.append(V('labelled', '%s|compressed-though-disabled' % impl,
+                         'http_compression=False but response %d declares '
+                         '%s' % (req.rid, coding)))
+        if coding not in offered and '*' not in offered:
+            q0 = 'q=0' in ae.replace(' ', '')
+            out.append(V('labelled', '%s|coding-not-offered|%s' % (
+                impl, 'q0' if q0 else 'absent'),
+                'response %d declares Content-Encoding %s but the request '
+                'offered %r (Accept-Encoding: %r)' % (
+                    req.rid, coding, sorted(offered), ae)))
+        try:
+            raw = R.browser_decode(req.status, req.resp_headers,
+                                   req.resp_body, None)
+            size = len(raw.encode('utf-8'))
+            if size < threshold:
+                out.append(V('labelled', '%s|compressed-below-threshold' %
+                             impl, 'response %d: body of %d bytes was '
+                             'compressed, threshold is %d' % (
+                                 req.rid, size, threshold)))
+        except R.RefError:
+            pass
+    return out
